@@ -122,6 +122,9 @@ class Executor:
         self.bname = {b: "%s-%s%s" % (b, uniq, suffix) for b in self.B}
         self.h2id = {b: {} for b in self.B}   # handle -> implementation id, per bucket
         self.seen_ids = set()
+        # what the caller knows without reading (for runs of calls without intermediate reads)
+        self.sh_exists = {b: False for b in self.B}
+        self.sh_live = {b: set() for b in self.B}
 
     # -- concretisation ------------------------------------------------------------------------
     def mkev(self, e, id=None):
@@ -160,30 +163,137 @@ class Executor:
             except KeyError:
                 st[b] = {"ex": False, "lst": lst}
                 continue
-            m = self.pmeta(bucket.metadata())
-            evs = [self.pev(e) for e in bucket.get(-1)]
-            probes = sorted(self.seen_ids | {e["id"] for e in evs} | {987654})
-            byid = []
-            for i in probes:
-                r = bucket.get_by_id(i)
-                byid.append({"id": i, "hit": {"id": -1} if r is None else self.pev(r)})
-            m.update(evs=evs, byid=byid, count=bucket.get_eventcount(), lst=lst)
+            try:
+                m = self.pmeta(bucket.metadata())
+                evs = [self.pev(e) for e in bucket.get(-1)]
+                probes = sorted(self.seen_ids | {e["id"] for e in evs} | {987654})
+                byid = []
+                for i in probes:
+                    r = bucket.get_by_id(i)
+                    byid.append({"id": i, "hit": {"id": -1} if r is None else self.pev(r)})
+                m.update(evs=evs, byid=byid, count=bucket.get_eventcount(), lst=lst)
+            except Exception as e:
+                # a handle was handed out but the bucket cannot be read: recorded as an existing bucket in an
+                # unreadable state (no step of the specification produces it)
+                m = {"ex": True, "type": "UNREADABLE:" + type(e).__name__, "client": "?", "host": "?", "name": "?", "data": "?", "created": -99999,
+                     "idok": False, "evs": [], "byid": [], "count": -1, "lst": lst}
             st[b] = m
         return st
 
     # -- execution -----------------------------------------------------------------------------
-    def run(self, ops):
+    BATCHABLE = ("create", "update", "delete_bucket", "absent", "insert", "replace", "delete")
+
+    def _observe(self, rec):
+        rec["st"] = self.proj()
+        for b in self.B:
+            ex = rec["st"][b]["ex"]
+            self.sh_exists[b] = bool(ex)
+            self.sh_live[b] = {e["id"] for e in rec["st"][b]["evs"]} if ex else set()
+            if ex:
+                self.seen_ids |= self.sh_live[b]
+        return rec
+
+    def run(self, ops, batch_prob=0.0):
+        """batch_prob > 0: some runs of consecutive calls are issued without any read in between and recorded as one
+        'batch' record (sub-calls with their outcomes, then one observation of the full state)"""
         trace = []
-        for op in ops:
-            rec = self.step(op)
+        i = 0
+        while i < len(ops):
+            if batch_prob and self.rnd.random() < batch_prob and ops[i]["op"] in self.BATCHABLE:
+                k = self.rnd.randint(2, 6)
+                subs, j = [], i
+                while j < len(ops) and len(subs) < k and ops[j]["op"] in self.BATCHABLE:
+                    r = self.step_noread(ops[j])
+                    if r is not None:
+                        subs.append(r)
+                    j += 1
+                i = j
+                if subs:
+                    trace.append(self._observe({"op": "batch", "b": subs[-1]["b"], "out": "ok", "ops": subs}))
+                continue
+            rec = self.step(ops[i])
+            i += 1
             if rec is None:
                 continue
-            rec["st"] = self.proj()
-            for b in self.B:
-                if rec["st"][b]["ex"]:
-                    self.seen_ids |= {e["id"] for e in rec["st"][b]["evs"]}
-            trace.append(rec)
+            trace.append(self._observe(rec))
         return trace
+
+    def step_noread(self, op):
+        """like step(), but decides applicability from what the caller already knows and never reads"""
+        ds, b, o = self.ds, op["b"], op["op"]
+        rb = self.bname[b]
+        rec = {"op": o, "b": b}
+        out = "ok"
+        exists = self.sh_exists[b]
+        try:
+            if o == "create":
+                if exists:
+                    return None
+                mt = op["meta"]
+                rec["meta"] = dict(mt)
+                self.sh_exists[b], self.sh_live[b], self.h2id[b] = True, set(), {}
+                ds.create_bucket(rb, STRS[mt["type"]], STRS[mt["client"]], STRS[mt["host"]], created=self.cz.dt(mt["created"]),
+                                 name=None if mt["name"] == "None" else STRS[mt["name"]],
+                                 data=None if mt["data"] == "m0" else copy.deepcopy(META[mt["data"]]))
+            elif o == "absent":
+                if exists:
+                    return None
+                rec["kind"] = op["kind"]
+                if op["kind"] == "lookup":
+                    ds[rb]
+                elif op["kind"] == "describe":
+                    from aw_datastore.datastore import Bucket
+                    Bucket(ds, rb).metadata()
+                elif op["kind"] == "update":
+                    ds.update_bucket(rb, name="zz")
+                else:
+                    ds.delete_bucket(rb)
+            elif not exists:
+                return None
+            elif o == "update":
+                f = op["f"]
+                kw = {}
+                for k, arg in (("type", "type_id"), ("client", "client"), ("host", "hostname"), ("name", "name")):
+                    if f[k] != "-":
+                        kw[arg] = STRS[f[k]]
+                if f["data"] != "-":
+                    kw["data"] = copy.deepcopy(META[f["data"]])
+                if not kw:
+                    return None
+                rec["f"] = dict(f)
+                ds.update_bucket(rb, **kw)
+            elif o == "delete_bucket":
+                self.sh_exists[b], self.sh_live[b], self.h2id[b] = False, set(), {}
+                ds.delete_bucket(rb)
+            elif o == "insert":
+                e = op["ev"]
+                rec["ev"] = {"ts": e["ts"], "dur": e["dur"], "d": e["d"]}
+                rec["id"] = -2
+                res = ds[rb].insert(self.mkev(e))
+                rec["id"] = res.id if isinstance(res.id, int) else -2
+                self.h2id[b][e["id"]] = rec["id"]
+                self.sh_live[b].add(rec["id"])
+            elif o == "replace":
+                e = op["ev"]
+                i = self.h2id[b].get(e["id"])
+                if i is None or i not in self.sh_live[b]:
+                    return None
+                rec["id"] = i
+                rec["ev"] = {"ts": e["ts"], "dur": e["dur"], "d": e["d"]}
+                ds[rb].replace(i, self.mkev(e))
+            elif o == "delete":
+                i = self.h2id[b].get(op["id"])
+                if i is None or i not in self.sh_live[b]:
+                    i = 987654
+                rec["id"] = i
+                self.sh_live[b].discard(i)
+                ds[rb].delete(i)
+            else:
+                return None
+        except Exception as ex:
+            out = type(ex).__name__
+        rec["out"] = out
+        return rec
 
     def cleanup(self):
         for b in self.B:
@@ -325,9 +435,14 @@ class Executor:
         elif o == "delete":
             i = self.h2id[b].get(op["id"])
             if i is None:
-                i = 987654 if op.get("dead", "never") == "never" or not self.seen_ids else max(self.seen_ids) + 7
-            elif i not in self.live_ids(b) and self._live_elsewhere(b, i):
-                return None            # would address another bucket's event: that is a foreign op, not generated here
+                kind = op.get("dead") or self.rnd.choice(["never", "used", "elsewhere"])
+                i = 987654 if kind == "never" or not self.seen_ids else max(self.seen_ids) + 7
+                if kind == "elsewhere":
+                    # an id that is live in another bucket only: for this bucket it never existed, the call removes nothing
+                    mine = set(self.live_ids(b) or [])
+                    cands = sorted({x for c in self.B if c != b for x in (self.live_ids(c) or []) if x not in mine})
+                    if cands:
+                        i = self.rnd.choice(cands)
             rec["id"] = i
             try:
                 ds[rb].delete(i)
@@ -440,7 +555,7 @@ def random_history(rnd, profile="mixed", buckets=("A", "B", "C"), maxlen=16):
                 live[b].discard(h)
                 ops.append({"op": "delete", "b": b, "id": h})
             else:
-                ops.append({"op": "delete", "b": b, "id": -5, "dead": rnd.choice(["never", "used"])})
+                ops.append({"op": "delete", "b": b, "id": -5, "dead": rnd.choice(["never", "used", "elsewhere", "elsewhere"])})
         elif r < (0.84 if not lifecycle else 0.48) and profile in ("frame", "mixed"):
             ops.append({"op": "foreign", "b": b, "kind": rnd.choice(["replace", "upsert", "delete"]),
                         "want": rnd.choice(["live", "live", "dead"]), "ev": ev(-1)})
@@ -468,7 +583,7 @@ def restrict(ops, allow_foreign):
 # running batches in worker processes
 
 def _worker(args):
-    kind, seed, jobs, fresh_every = args
+    kind, seed, jobs, fresh_every, batch_prob = args
     rnd = random.Random(seed)
     root = common.scratch_dir("w%d_%s_%d" % (os.getpid(), kind, seed % 100000))
     out = []
@@ -480,7 +595,7 @@ def _worker(args):
                     close_datastore(kind, ds)
                 ds = mk_datastore(kind, root, "db%d" % n)
             ex = Executor(ds, kind, rnd, "%s%d" % (key, n))
-            tr = ex.run(ops)
+            tr = ex.run(ops, batch_prob=batch_prob)
             ex.cleanup()
             out.append((key, {"backend": kind, "base": ex.cz.base.isoformat(), "scale": ex.cz.scale, "ops": ops, "trace": tr}))
     finally:
@@ -490,7 +605,7 @@ def _worker(args):
     return out
 
 
-def run_batch(behaviours, seed, backends=BACKENDS, procs=None, fresh_every=25):
+def run_batch(behaviours, seed, backends=BACKENDS, procs=None, fresh_every=25, batch_prob=0.25):
     """behaviours: list of (key, ops).  Every behaviour is run on every backend.
     Returns list of dicts(backend, key, ops, trace, ...)."""
     procs = procs or common.ncpu()
@@ -500,7 +615,7 @@ def run_batch(behaviours, seed, backends=BACKENDS, procs=None, fresh_every=25):
         for w in range(per):
             jobs = behaviours[w::per]
             if jobs:
-                tasks.append((kind, seed * 1000 + bi * 100 + w, jobs, fresh_every))
+                tasks.append((kind, seed * 1000 + bi * 100 + w, jobs, fresh_every, batch_prob))
     res = common.pmap(_worker, tasks, procs=len(tasks))
     flat = []
     for part in res:
